@@ -1096,7 +1096,8 @@ func (e *Executor) Replay(ctx context.Context, r StateReader, opts ...ReplayOpti
 	}
 	defer func() {
 		simPoint("replay:before-restore")
-		if err2 := restore(ctx); err2 != nil {
+		// Restore the database also if the context was canceled (e.g., the command was interrupted).
+		if err2 := restore(context.WithoutCancel(ctx)); err2 != nil {
 			err = errors.Join(err, err2)
 		}
 		simPoint("replay:after-restore")
